@@ -88,6 +88,8 @@ impl<'t> ResponseIterator<'t> {
     }
 
     pub fn next_including_opt(mut self) -> Option<Self> {
+        #[cfg(dnssector_verif)]
+        crate::verif::tick(crate::verif::SITE_ITER_NEXT);
         {
             let rr_iterator = &mut self.rr_iterator;
             let parsed_packet = &mut rr_iterator.parsed_packet;
